@@ -16,6 +16,8 @@ Tr == Entries[pid].events
 TInit == Init /\ l = 1 /\ drift = 0
 
 NoPrio(evs) == SelectSeq(evs, LAMBDA e : e.e # "Prio")
+\* the number of batches still registered in the scheduler at the end of a call is an observation, not behaviour
+Norm(e) == IF e.e = "CallEnd" THEN [e EXCEPT !.b = 0] ELSE e
 
 TNext == /\ frames # <<>>
          /\ drift = 0
@@ -23,7 +25,7 @@ TNext == /\ frames # <<>>
               LET r == StepM(m, frames, choice)
                   evs == NoPrio(r.M.evs)
                   n == Len(evs)
-                  mism == {i \in 1..n : l + i - 1 > Len(Tr) \/ Tr[l + i - 1] # evs[i]}
+                  mism == {i \in 1..n : l + i - 1 > Len(Tr) \/ Norm(Tr[l + i - 1]) # Norm(evs[i])}
                   ok == mism = {}
                   first == IF ok THEN 0 ELSE CHOOSE i \in mism : \A j \in mism : i <= j
               IN /\ m' = [r.M EXCEPT !.evs = <<>>]
